@@ -184,6 +184,11 @@ class Fn:
         txt = self.A.src_text(n)
         self.oracles.append(re.sub(r'\s+', ' ', txt.strip()))
         fv = self.int_free_vars(n)
+        # optionally, an oracle inside a loop also sees the loop counters: a float test on state that changes from one
+        # iteration to the next must not be modelled by one constant boolean
+        for v in getattr(self, 'oracle_ivs', []):
+            if v not in fv and v in self.types:
+                fv = fv + [v]
         return '(orc %s [%s])' % (coq_string(txt), '; '.join(self.cur(v) for v in fv))
 
     def int_like(self, n):
@@ -836,9 +841,10 @@ class Fn:
         else:
             outer_iv = False
             i0 = strip(init)
-            if not (i0['kind'] == 'BinaryOperator' and i0['opcode'] == '=' and strip(kids(i0)[0])['kind'] == 'DeclRefExpr'):
+            if not (i0['kind'] == 'BinaryOperator' and i0['opcode'] == '=' and
+                    (strip(kids(i0)[0])['kind'] == 'DeclRefExpr' or self.member_name(strip(kids(i0)[0])) is not None)):
                 raise TranslationError('for-loop initialisation is not `i = a` in %s' % self.name)
-            iv = strip(kids(i0)[0])['referencedDecl']['name']
+            iv = self.lvalue_name(kids(i0)[0])
             if self.types.get(iv) != 'Z':
                 raise TranslationError('for-loop induction variable `%s` is not a tracked integer in %s' % (iv, self.name))
             start = self.expr(kids(i0)[1])
@@ -849,13 +855,14 @@ class Fn:
         first = cn
         while first['kind'] == 'BinaryOperator' and first['opcode'] == '&&':
             first = strip(kids(first)[0])
-        if not (first['kind'] == 'BinaryOperator' and first['opcode'] in ('<', '<=')
-                and strip_casts(kids(first)[0]).get('referencedDecl', {}).get('name') == iv):
+        def names_iv(n):
+            n = strip_casts(n)
+            return n.get('referencedDecl', {}).get('name') == iv or self.member_name(n) == iv
+        if not (first['kind'] == 'BinaryOperator' and first['opcode'] in ('<', '<=') and names_iv(kids(first)[0])):
             raise TranslationError('for-loop condition not of the form i < b in %s' % self.name)
         bound_node = kids(first)[1]
         ic = strip(inc) if inc else None
-        if parts is None and not (ic and ic['kind'] == 'UnaryOperator' and ic['opcode'] == '++'
-                and strip(kids(ic)[0]).get('referencedDecl', {}).get('name') == iv):
+        if parts is None and not (ic and ic['kind'] == 'UnaryOperator' and ic['opcode'] == '++' and names_iv(kids(ic)[0])):
             raise TranslationError('for-loop increment is not i++ in %s' % self.name)
         body_ss = [bdy]
         carried = [v for v in self.assigned(body_ss) if v != iv]
